@@ -32,7 +32,12 @@ func c18Gen(r *rand.Rand, tier string) any {
 		}
 	case 1:
 		a := r.IntN(len(p.Targets))
-		p.Targets[a].Deps = append(p.Targets[a].Deps, "//:nope")
+		dep := "//:nope"
+		if r.IntN(2) == 0 {
+			// a package label without a target name is not a target either
+			dep = []string{"//a", "//c", "//a/b"}[r.IntN(3)]
+		}
+		p.Targets[a].Deps = append(p.Targets[a].Deps, dep)
 		sc.Mode = "unknown"
 	}
 	shadow := sc.clone().Spec
